@@ -183,10 +183,13 @@ def _task_spellings(task):
             variants = [v + ("lower", False) for v in variants] + [(None, False, "title", False), (None, True, "upper", False), ("all", False, "upper", False),
                                                                     ("all", True, "title", False), (None, False, "lower", True), ("all", True, "upper", True)]
             variants = [v + ("plain",) for v in variants] + [(c, w, "lower", False, ts) for ts in ("charref", "entity", "cdata") for c, w in ((None, False), ("all", True))]
+            # schema attributes that do not bear on decoding (signed, sizeInBits, initialValue on parameter types), alone and with the defaults left out
+            variants += [(None, False, "lower", False, "plain+attrs"), (None, True, "title", True, "plain+attrs"), ("all", False, "lower", True, "entity+attrs")]
             for comments, ws, bool_case, omit, text_style in variants:
                 case = {"doc": di, "style": style, "comments": "all" if comments == "all" else sorted(comments) if comments else None,
                         "whitespace": ws, "bool_case": bool_case, "omit_defaults": omit, "text_style": text_style}
-                xml = render_xml(doc, style, comments=comments, whitespace=ws, bool_case=bool_case, omit_defaults=omit, text_style=text_style)
+                xml = render_xml(doc, style, comments=comments, whitespace=ws, bool_case=bool_case, omit_defaults=omit, text_style=text_style.split("+")[0],
+                                 extra_attrs="+attrs" in text_style)
                 t.evals += 1
                 case["form"] = ("BytesIO", "binary file object", "text file object", "str path", "pathlib.Path")[t.evals % 5]
                 try:
@@ -380,7 +383,7 @@ def run(ctx):
         "exhaustive": True,
         "bound": (f"spellings: {len(docs_)} base documents x 8 namespace renderings (prefix xtce, prefix q, an upper-case prefix XTCE, default namespace, none, none + xmlns:xsi, and the namespace bound twice on the root with the loader told the binding the elements do not use) x a comment at every inter-element position "
                   f"({'every position for prefix xtce/default/none, every third for q and none+xsi' if ctx.quick else 'every position'}), all at once, "
-                  f"x whitespace variants x boolean attribute spellings true, True, TRUE x (every attribute written | attributes that equal their documented default left out) x character spellings (plain | numeric character references in text and attribute values | general entities of an internal DTD subset | CDATA sections), handed over in rotation as BytesIO / binary file object / text file object / str path / pathlib.Path; histories: every sequence of <= {3 if ctx.quick else 4} operations over a {nops}-operation menu "
+                  f"x whitespace variants x boolean attribute spellings true, True, TRUE x (every attribute written | attributes that equal their documented default left out) x character spellings (plain | numeric character references in text and attribute values | general entities of an internal DTD subset | CDATA sections) x (schema attributes that do not bear on decoding absent | present), handed over in rotation as BytesIO / binary file object / text file object / str path / pathlib.Path; histories: every sequence of <= {3 if ctx.quick else 4} operations over a {nops}-operation menu "
                   "(15 target loads in different namespace conventions, two of them of documents with identical names and shape but different content, 2 loads of documents whose types carry two encodings in either order, a document the library warns about loaded by a caller who turns warnings into errors and by one who does not, 3 wrong-prefix loads, 4 loads that fail late inside the container/parameter set, 2 malformed inputs) followed by every target load (histories of length 4: every third target; quick tier, length 3: every other rendering target and all loose / strict targets); "
                   "breadth-first closure over the real class-level namespace state to a fixed point"),
         "rule": ("one evaluation = one load compared with the fresh-interpreter canonical form; states = reachable class-level (nsmap, prefix) states "
@@ -407,7 +410,7 @@ def replay(case):
     comments = "all" if comments == "all" else set(comments) if comments else None
     doc = base_docs()[case["doc"]]
     xml = render_xml(doc, case["style"], comments=comments, whitespace=case["whitespace"], bool_case=case.get("bool_case", "lower"), omit_defaults=case.get("omit_defaults", False),
-                     text_style=case.get("text_style", "plain"))
+                     text_style=case.get("text_style", "plain").split("+")[0], extra_attrs="+attrs" in case.get("text_style", ""))
     try:
         forms = ("BytesIO", "binary file object", "text file object", "str path", "pathlib.Path")
         d = load_form(xml, ns_prefix_arg(case["style"]), doc.root, forms.index(case["form"]) if case.get("form") in forms else 0)
